@@ -198,6 +198,8 @@ func agrees(e expr.Expr, b []byte, exp *Exp) (bool, string) {
 	return true, ""
 }
 
+func jsonUnmarshal(b []byte, v interface{}) error { return json.Unmarshal(b, v) }
+
 type stats struct {
 	Cases, Evaluations, Failures int
 	Kinds                        map[string]int
@@ -460,7 +462,7 @@ func main() {
 			os.Exit(2)
 		}
 		c.Raw = append([]byte(nil), line...)
-		if (c.Kind == "" || c.Kind == "expr") && len(c.ExpR) > 0 {
+		if (c.Kind == "" || c.Kind == "expr" || c.Kind == "codec.expr") && len(c.ExpR) > 0 {
 			c.Exp = &Exp{}
 			if err := json.Unmarshal(c.ExpR, c.Exp); err != nil {
 				fmt.Fprintln(os.Stderr, "bad case:", err)
@@ -479,6 +481,10 @@ func main() {
 			sortCase(&c, out, st)
 		case "plan":
 			planCase(&c, out, st)
+		case "codec.expr":
+			codecExprCase(&c, out, st)
+		case "codec.value":
+			codecValueCase(&c, out, st)
 		default:
 			fmt.Fprintln(os.Stderr, "unknown case kind", c.Kind)
 			os.Exit(2)
